@@ -162,3 +162,28 @@ fn c17_smoothstep() {
     assert!(x * 4096.0 == (k * k * (48 - 2 * k)) as f32);
     kani::cover!(t.is_nan(), "nan");
 }
+
+/// Z2b: exactly *at* the ends.  Control points drawn from a table of values
+/// whose arithmetic does not come out exact (0.1, 0.7, 1e8, ...), parameter
+/// drawn from {-3, -0.0, 0, 1, 1.5}: eval / fast_eval / spline eval return the
+/// first / last control point itself, bit for bit - not a value recomputed by
+/// the polynomial.  (c17_ends_and_totality poses the same for all floats, but
+/// there the solver has to find the rounding by itself.)
+#[kani::proof]
+#[kani::unwind(6)]
+fn c17_ends_exact() {
+    const T: [f32; 8] = [0.1, 0.7, 0.3, 0.9, 1e8, 1.0, 0.17, -2.5];
+    let pick = || { let i: u8 = kani::any(); kani::assume(i < 8); T[i as usize] };
+    let p = [pick(), pick(), pick(), pick()];
+    let ti: u8 = kani::any();
+    kani::assume(ti < 5);
+    let t = [-3.0f32, -0.0, 0.0, 1.0, 1.5][ti as usize];
+    let b = CubicBezier(p);
+    let sp = BezierSpline::new(&p[..]);
+    let want = if t <= 0.0 { p[0] } else { p[3] };
+    assert!(b.eval(t).to_bits() == want.to_bits());
+    assert!(b.fast_eval(t).to_bits() == want.to_bits());
+    assert!(sp.eval(t).to_bits() == want.to_bits());
+    assert!(step(t, &-1.0f32, &2.0f32, |_| 0.0) == if t <= 0.0 { -1.0 } else { 2.0 });
+    kani::cover!(ti == 3 && p[0] == 0.1 && p[3] == 0.9, "t = 1 on a non-dyadic polygon");
+}
